@@ -206,6 +206,32 @@ pub fn generate(cfg: &Cfg) -> Vec<String> {
                 }
                 push(&mut rng, &m);
             }
+            // VALID multi-byte UTF-8 at the positions byte-offset arithmetic gets wrong: the first and
+            // the second character of a line (any line of the file), and anywhere
+            for _ in 0..60 * scale {
+                let nrec = rng.range(1, 3);
+                let base = gen_file(&mut rng, fmt, alpha, nrec, true);
+                let mut m = base.clone();
+                let starts: Vec<usize> = std::iter::once(0)
+                    .chain(m.iter().enumerate().filter(|(_, &b)| b == b'\n').map(|(i, _)| i + 1))
+                    .filter(|&i| i < m.len())
+                    .collect();
+                let ch: &[u8] = *rng.pick(&["\u{b5}".as_bytes(), "\u{e9}".as_bytes(), "\u{20ac}".as_bytes(), "\u{1f600}".as_bytes(), "\u{a0}".as_bytes()]);
+                let at = match rng.below(4) {
+                    0 => *rng.pick(&starts),
+                    1 => (*rng.pick(&starts) + 1).min(m.len()),
+                    2 => (*rng.pick(&starts) + 2).min(m.len()),
+                    _ => rng.below(m.len() + 1),
+                };
+                // insert, or overwrite the byte there
+                if rng.chance(1, 2) && at < m.len() && m[at] != b'\n' {
+                    m.remove(at);
+                }
+                for (k, b) in ch.iter().enumerate() {
+                    m.insert(at + k, *b);
+                }
+                push(&mut rng, &m);
+            }
             // random bytes, random printable soup
             for _ in 0..60 * scale {
                 let n = rng.range(0, 60);
